@@ -582,15 +582,11 @@ func bindTaprootRef(r *ev.Run, st *bindStats) int {
 				active = true
 			}
 		}
-		tv := time.Now()
 		local := newBindStats()
 		bindInput(r, local, name+" ("+v.Comment+")", tx, v.Index, prev, active)
 		mu.Lock()
 		st.merge(local)
 		mu.Unlock()
-		if d := time.Since(tv); d > 50*time.Millisecond && os.Getenv("C07_DEBUG") != "" {
-			fmt.Fprintf(os.Stderr, "slow vector %s %s %v nin=%d wit=%d\n", name, v.Comment, d, len(tx.TxIn), len(wit))
-		}
 		atomic.AddInt64(&n, 1)
 	})
 	return int(n)
